@@ -673,3 +673,16 @@ package measure
 //@   loop 0 invariant off(src) - old(off(src)) == escLen(fieldValue, len(dest) - old(len(dest)))
 //@   loop 0 invariant forall k :: 0 <= k && k < len(dest) - old(len(dest)) ==> dest[old(len(dest))+k] == fieldValue[k]
 //@   loop 0 decreases len(src)
+//
+//@ section C08
+//
+// searchPBM: the primary-block index is ordered by the first series of each block, and a series may continue from the end of
+// one primary block into the next. Jumping to series sid may drop only the blocks that lie wholly before sid: a dropped
+// block is followed by a block whose first series is still smaller than sid.
+//@ func searchPBM
+//@   mode int
+//@   requires len(pbmIndex) > 0 && sid >= pbmIndex[0].seriesID
+//@   requires ordered: forall a, b :: 0 <= a && a < b && b < len(pbmIndex) ==> pbmIndex[a].seriesID <= pbmIndex[b].seriesID
+//@   allow panic when false
+//@   ensures  suffix: sameobj(result, pbmIndex) && off(result) >= off(pbmIndex) && off(result) + len(result) == off(pbmIndex) + len(pbmIndex) && len(result) > 0
+//@   ensures  drops-only-blocks-wholly-before-sid: forall j :: 0 <= j && j < off(result) - off(pbmIndex) ==> j + 1 < len(pbmIndex) && pbmIndex[j+1].seriesID < sid
